@@ -186,6 +186,7 @@ func exploreBlock(c *xs.Ctx, r *xs.Result, hi int, rec *prodRec, k *pooled, only
 			return
 		}
 		r.Count("states", 1)
+		r.Sample(map[string]interface{}{"history": hi, "block": ident, "class": class, "variant": v.Name, "flavour": v.Flavor})
 		r.Add("variant_fields", class+":"+rootGroup(class, v)+"/"+v.Flavor)
 		V := vnode.CloneBlock(k.Block)
 		v.Mut(V)
